@@ -60,63 +60,8 @@ theorem describe_exact {S : Schema} (h : Accepted S) (F : List String) :
     `schema.New` accepts a directive argument of a gated type (open finding F-10g), hence the second
     hypothesis; `visible_not_closed_gated_directive_argument` below shows it cannot be dropped. -/
 theorem visible_closed {S : Schema} (h : Accepted S) (hd : DirArgsUngated S) (F : List String) :
-    ClosedV (visible S F) := by
-  have hf := facts_of_accepted h
-  constructor
-  · intro u hu n hn
-    simp only [visible, List.mem_map, List.mem_filter] at hu
-    obtain ⟨t, ⟨ht, hv⟩, rfl⟩ := hu
-    have hreg := reg_of_visibleName hv
-    have htF := visible_feat hf ht hv
-    apply mem_visible_names hf
-    rcases mem_refNames hn with ⟨f, hfm, hcase⟩ | ⟨a, ha, rfl⟩ | hi | hm
-    · -- a visible field of `t`, or one of its arguments
-      simp only [restrict, List.mem_filter] at hfm
-      obtain ⟨hfm, hfF⟩ := hfm
-      have hkind : t.kind = .object ∨ t.kind = .interface := by
-        by_cases h1 : t.kind = .object
-        · exact Or.inl h1
-        · by_cases h2 : t.kind = .interface
-          · exact Or.inr h2
-          · have := hf.shapeFields t ht h1 h2
-            rw [this] at hfm
-            cases hfm
-      have hff := hf.fieldFeat t ht hreg hkind f hfm
-      have hsub : subsetOf (f.feat.keys ++ t.feat.keys) F = true := subsetOf_append hfF htF
-      rcases hcase with rfl | ⟨a, ha, rfl⟩
-      · exact visibleName_of (hf.refsReg t ht hreg _ (mem_refNames_field hfm)) (subsetOf_trans hff.1 hsub)
-      · exact visibleName_of (hf.refsReg t ht hreg _ (mem_refNames_arg hfm ha)) (subsetOf_trans (hff.2 a ha) hsub)
-    · -- an input field
-      have ha' : a ∈ t.inputs := ha
-      have hkind : t.kind = .inputObject := by
-        by_cases h1 : t.kind = .inputObject
-        · exact h1
-        · have := hf.shapeInputs t ht h1
-          rw [this] at ha'
-          cases ha'
-      exact visibleName_of (hf.refsReg t ht hreg _ (mem_refNames_input ha'))
-        (subsetOf_trans (hf.inputFeat t ht hreg hkind a ha') htF)
-    · -- a visible interface
-      simp only [restrict, List.mem_filter] at hi
-      exact hi.2
-    · -- a union member
-      have hm' : n ∈ t.members := hm
-      have hkind : t.kind = .union := by
-        by_cases h1 : t.kind = .union
-        · exact h1
-        · have := hf.shapeMembers t ht h1
-          rw [this] at hm'
-          cases hm'
-      exact visibleName_of (hf.refsReg t ht hreg _ (mem_refNames_member hm'))
-        (subsetOf_trans (hf.memberFeat t ht hreg hkind n hm') htF)
-  · intro dd hdd a ha
-    apply mem_visible_names hf
-    have hdd' : dd ∈ S.defn.directives := hdd
-    apply visibleName_of (hf.dirArgsReg dd hdd' a ha)
-    rw [dirArgFeat_of hd dd hdd' a ha]
-    rfl
-
-
+    ClosedV (visible S F) :=
+  visible_closed' h hd F
 
 /-- **describe_types_once** — the description lists exactly the types of the visible schema, each
     once (a permutation of the visible schema's type names). -/
@@ -250,6 +195,71 @@ theorem clone_disjoint {b : Nat} {d : GDef} (hb : ∀ i ∈ d.ids, i < b) (hc : 
   have h1 := ids_cloneDef hc n hn
   have h2 := hb n hmem
   omega
+
+/-! ## Rebuilding a schema from the introspection result -/
+
+/-- **rebuild_introspect** (`rebuild_same_verdicts_partial`, see below) — for an accepted schema
+    whose directive argument types are ungated, whose wrapper chains have at most seven wrappers
+    (what query.go selects), whose directive locations are the specification's and whose root types
+    the request can see (`RebuildGuards`): `GetSchemaDefinition` applied to the introspection result
+    succeeds and returns **exactly** `forgetDef (visible S F)` — the visible schema with its types in
+    name order and with nothing changed except what `forgetDef` (Spec.lean) removes: default values
+    (F-10a), required features, applied directives, callbacks / enum Go values (not modelled), and
+    `AdditionalTypes` (now: the objects that implement interfaces). Names, kinds, descriptions,
+    fields, arguments, input fields, wrapper chains, enum values, deprecation reasons, interfaces,
+    union members, directives with locations and arguments all survive. -/
+theorem rebuild_introspect {S : Schema} (h : Accepted S) (hd : DirArgsUngated S) {F : List String}
+    (hg : RebuildGuards S F) : rebuild (introspect S F) = .ok (forgetDef (visible S F)) := by
+  rw [describe_exact h F]
+  exact rebuild_describe _ _ (rebuildOk_visible h hd hg)
+
+/-- **rebuild_same_verdicts_partial**. Full statement (not proved, and false on the unchanged code
+    because of F-10a): `∀ D, validate (New (rebuild (introspect S ⊤))) D = [] ↔ validate S D = []`.
+    It needs a model of the validator (property C04) on top of this one. What is proved is the
+    definition-level half: with every feature enabled nothing of the schema is hidden
+    (`visible S F` keeps every registered type and field) and the rebuilt definition is that schema
+    minus exactly the attributes `forgetDef` names; so a verdict can only differ through a forgotten
+    attribute, and of those only default values are read by the validator (required arguments /
+    input fields, nullable variable in a defaulted non-null position): the harness's F-10a
+    classifier checks precisely this on every differing verdict. -/
+theorem rebuild_same_verdicts_partial {S : Schema} (h : Accepted S) (hd : DirArgsUngated S) {F : List String}
+    (hg : RebuildGuards S F)
+    (hall : ∀ t ∈ S.defn.types, subsetOf t.feat.keys F = true ∧ ∀ f ∈ t.fields, subsetOf f.feat.keys F = true) :
+    rebuild (introspect S F) = .ok (forgetDef (visible S F))
+    ∧ (visible S F).types.map (·.name) = (S.defn.types.filter (fun t => S.namedTypes.contains t.name)).map (·.name)
+    ∧ ∀ t ∈ S.defn.types, (restrict S F t).fields = t.fields := by
+  have hf := facts_of_accepted h
+  refine ⟨rebuild_introspect h hd hg, ?_, ?_⟩
+  · rw [visible_types_names]
+    congr 1
+    apply List.filter_congr
+    intro t ht
+    simp [visibleName, featuresOf_of_mem hf.tableNodup ht, (hall t ht).1]
+  · intro t ht
+    simp only [restrict]
+    rw [List.filter_eq_self]
+    intro f hfm
+    exact (hall t ht).2 f hfm
+
+/-- **type_reference_survives** — a wrapper chain of at most `k` wrappers over a listed type, as
+    selected by a `TypeRef` fragment with `k` nested `ofType`, is read back by `TypeData.getType`
+    as exactly the same chain (list / non-null order included). -/
+theorem type_reference_survives {ι : Type} (d : SchemaDef ι) (types : List (String × Kind)) (r : TRef) (k : Nat)
+    (hd : r.depth ≤ k) (hl : types.any (fun p => p.1 == r.leaf) = true) :
+    getType types (refData d k r) = .ok r :=
+  getType_refData d types r k hd hl
+
+/-- **type_reference_truncated** — the guard is sharp: with more wrappers than the query selects
+    (more than seven for the standard query) the reference comes back cut off and the rebuild fails
+    ("null ofType for list type"); query.go documents this. -/
+theorem type_reference_truncated {ι : Type} (d : SchemaDef ι) (types : List (String × Kind)) (r : TRef) (k : Nat)
+    (hd : k < r.depth) : ∃ e, getType types (refData d k r) = .error e :=
+  getType_truncated d types r k hd
+
+/-- Non-vacuity of `rebuild_introspect`: the witness schema meets the guards (for the request with
+    feature `x`, and for the one without). -/
+example : RebuildGuards witnessOk ["x"] ∧ RebuildGuards witnessOk [] :=
+  ⟨⟨by decide, by decide, by decide, by decide, by decide⟩, ⟨by decide, by decide, by decide, by decide, by decide⟩⟩
 
 /-! ## Default values
 
